@@ -365,10 +365,18 @@ func (gp *GenginePool) UpdatePooledRulesIncremental(ruleStr string) error {
 func (gp *GenginePool) ClearPoolRules() {
 	gp.updateLock.Lock()
 	defer gp.updateLock.Unlock()
-	gp.ruleBuilder = nil
+
+	//an empty master copy (not nil): later incremental updates and removals work on it
+	dataContext := context.NewDataContext()
+	if gp.apis != nil {
+		for k, v := range gp.apis {
+			dataContext.Add(k, v)
+		}
+	}
+	gp.ruleBuilder = builder.NewRuleBuilder(dataContext)
 	gp.clear = true
 	for i := 0; i < int(gp.max); i++ {
-		gp.rbSlice[i].Kc.ClearRules()
+		gp.rbSlice[i].Kc = gp.ruleBuilder.Kc
 	}
 }
 
